@@ -11,7 +11,7 @@ from engine import build, irload
 from engine.common import need, AnalysisBroken
 
 ALLOWED_UNDEF = {
-    'memset', 'memcmp', 'memmove', 'memcpy', 'strlen', 'printf', 'snprintf', 'putchar', 'puts',
+    'memset', 'memcmp', 'bcmp', 'memmove', 'memcpy', 'strlen', 'printf', 'snprintf', 'putchar', 'puts',
     '__stack_chk_fail', '_GLOBAL_OFFSET_TABLE_',
 }
 DENY = {'malloc', 'calloc', 'realloc', 'free', 'alloca', 'strdup', 'strndup', 'aligned_alloc', 'posix_memalign',
